@@ -1,7 +1,8 @@
 check("C01", "model_checking",
       "An executable TLA+ semantics (Machine.tla over Wide.tla limb arithmetic; places = [frame, variable, path] with read-only views, "
       "autoderef by address-marker count, nested runs for call expressions) is the oracle: TLC evaluates the complete operator x type x "
-      "boundary-operand matrix, runs every accepted control-flow skeleton up to the bound (also with two label names) and every "
+      "boundary-operand matrix, runs every accepted control-flow skeleton up to the bound (also with two label names; every other pack with an uncalled "
+      "never-returning function in front of each function) and every "
       "caller/callee program of MC_MachinePtr (parameter kind x argument form x way the callee treats it), checking non-interference, "
       "legality and the machine's monitors as invariants; every cell, skeleton and program is compiled by the real compiler, executed with "
       "lli and compared on full stdout (programs the machine refuses must be rejected); random well-typed programs over the whole "
